@@ -834,6 +834,27 @@ class SymArr:
             r._guards = tuple(getattr(self, "_guards", ())) + (srcfn,)
         return r
 
+    # torch's naming convention: a method whose name ends in "_" works IN PLACE.  One the engine does not model is still a write
+    # into the buffer: the write counter moves (frame clauses see it) and the content is unknown afterwards.
+    _INPLACE_NO_WRITE = ("requires_grad_", "share_memory_", "detach_", "retain_grad_", "pin_memory_")
+
+    def __getattr__(self, name):
+        if name.endswith("_") and not name.startswith("_") and not self.__dict__.get("pylist", True):
+            if name in SymArr._INPLACE_NO_WRITE:
+                return lambda *a, **k: self
+
+            def inplace(*a, _name=name, **k):
+                ctx = cur()
+                if self.base is not self:
+                    self.detach_from_base()
+                self.writes += 1
+                fresh = ctx.fresh_arr(f"inplace_{_name}", self.shape, self.kind if self.kind in ("int", "real", "bool") else "real")
+                self.fn = fresh.fn
+                return self
+
+            return inplace
+        raise AttributeError(name)
+
     def __setitem__(self, key, value):
         if not isinstance(key, tuple):
             key = (key,)
